@@ -33,58 +33,55 @@ FIX = "cnvlib.fix"
 
 
 def d1(chk, prog):
-    chk.clause("D1", "coordinate join: keyed by (chromosome, start, end); duplicates and missing bins raise before any return")
+    chk.clause("D1", "coordinate join: reference rows are paired with sample bins by (chromosome, start, end); duplicates and missing bins raise")
     fi = prog.fn(f"{FIX}.match_ref_to_sample")
-    par = parents(fi.node)
-    rets = [n for n in own_nodes(fi.node) if isinstance(n, ast.Return)]
-    chk.floor("returns of match_ref_to_sample", len(rets), 1)
-    # keys
-    keyed = {}
-    for st in own_nodes(fi.node):
-        if isinstance(st, ast.Assign) and isinstance(st.value, ast.Call) and isinstance(st.value.func, ast.Attribute) and st.value.func.attr == "set_index" and st.value.args:
-            a = norm(st.value.args[0])
-            if a.startswith("pd.Index(") and a.endswith(".coords())"):
-                keyed[norm(st.targets[0])] = (norm(st.value.func.value), a[len("pd.Index("):-len(".coords())")])
-    ok = len(keyed) == 2 and all(src.startswith(who + ".data") for (src, who) in keyed.values()) and {w for _, w in keyed.values()} == {"samp_cnarr", "ref_cnarr"}
-    chk.decide(ok, "coordinate-join", f"both tables are keyed by their own coords(): {keyed}", f"{fi.qn}::keys", fi.loc(), f"sample and reference must each be indexed by their own (chromosome, start, end); found {keyed}")
     coords = prog.fn("skgenome.gary.GenomicArray.coords")
-    ok = any(isinstance(n, ast.Assign) and norm(n.value) == "list(GenomicArray._required_columns)" for n in own_nodes(coords.node))
     req = None
     for st in prog.classes["GenomicArray"].node.body:
         if isinstance(st, ast.Assign) and norm(st.targets[0]) == "_required_columns":
             req = ast.literal_eval(st.value)
-    chk.decide(ok and req == ("chromosome", "start", "end"), "coordinate-join", "coords() = (chromosome, start, end)", f"{coords.qn}::columns", coords.loc(), f"coords() columns are {req}")
-    # reindex
-    rx = [n for n in own_nodes(fi.node) if isinstance(n, ast.Call) and isinstance(n.func, ast.Attribute) and n.func.attr == "reindex"]
-    names = {k: v[1] for k, v in keyed.items()}
-    ok = len(rx) == 1 and names.get(norm(rx[0].func.value)) == "ref_cnarr" and any(k.arg == "index" and names.get(norm(k.value)[:-len(".index")]) == "samp_cnarr" for k in rx[0].keywords)
-    chk.decide(ok, "coordinate-join", "reference rows are selected by reindex(index = the sample's coordinate keys)", f"{fi.qn}::reindex", fi.loc(), "the reference must be reindexed on the sample's coordinate keys (never by row position)")
-    rx_name = None
-    for st in own_nodes(fi.node):
-        if isinstance(st, ast.Assign) and rx and st.value is rx[0]:
-            rx_name = norm(st.targets[0])
-    # raises
-    dup_raise, miss_raise = [], []
-    for n in own_nodes(fi.node):
-        if isinstance(n, ast.If) and any(isinstance(s, ast.Raise) for s in n.body):
-            t = norm(n.test)
-            names_in_test = {x.id for x in ast.walk(n.test) if isinstance(x, ast.Name)}
-            if any("duplicated" in norm(v) for nm in names_in_test for _, v in flow.assignments(fi.node, nm) if v is not None):
-                dup_raise.append(n)
-            if any(v is not None and ("isnull" in norm(v) or "isna" in norm(v)) and rx_name and rx_name in norm(v) for nm in names_in_test for _, v in flow.assignments(fi.node, nm)):
-                miss_raise.append(n)
-    for r in rets:
-        chk.decide(any(dominates(g, r, par) or _loop_dominates(g, r, par) for g in dup_raise), "must-pass-through", "duplicate-coordinates raise precedes the return", f"{fi.qn}::duplicates check", fi.loc(r),
-                   "a table with duplicated coordinates must be refused: reindex on a non-unique key pairs bins arbitrarily")
-        chk.decide(any(dominates(g, r, par) for g in miss_raise), "must-pass-through", "missing-bin raise (null test of the reindexed rows) precedes the return", f"{fi.qn}::missing check", fi.loc(r),
-                   "reindex() fills bins absent from the reference with NaN rows; without the null test + raise a sample bin missing from the reference passes through as NaN")
-    # the duplicates loop covers both tables
-    loops = [n for n in own_nodes(fi.node) if isinstance(n, ast.For) and any(g in list(ast.walk(n)) for g in dup_raise)]
-    ok = bool(loops) and all(k in norm(loops[0].iter) for k in keyed)
-    chk.decide(ok, "must-pass-through", "duplicates are checked in the sample and in the reference", f"{fi.qn}::duplicates both", fi.loc(), "both tables must be checked for duplicated coordinates")
-    # the result takes the sample's index
-    ok = any("set_index(samp_cnarr.data.index)" in norm(r.value) or any("set_index(samp_cnarr.data.index)" in norm(v) for _, v in flow.assignments(fi.node, norm(r.value)) if v is not None) for r in rets)
-    chk.decide(ok, "coordinate-join", "matched reference rows take the sample's index (label-aligned with the sample)", f"{fi.qn}::result index", fi.loc(), "the matched reference must be re-labelled with the sample's index")
+    chk.decide(req == ("chromosome", "start", "end"), "coordinate-join", "GenomicArray._required_columns = (chromosome, start, end)", f"{coords.qn}::columns", coords.loc(), f"coords() columns are {req}")
+    tb = Table(chk, "coordinate-join", "match_ref_to_sample on literal tables: reference permuted / a superset / with other labels; duplicated or missing coordinates", fi.loc(), fi.qn)
+    bins = [("chr1", 0, 100), ("chr1", 100, 250), ("chr1", 100, 300), ("chr2", 0, 100), ("chr2", 50, 100)]
+
+    def table(keys, tag, labels):
+        rows = [dict(chromosome=c, start=s, end=e, gene=f"{tag}{i}", log2=Term.sym(f"{tag}_{c}_{s}_{e}_{i}"), rowid=f"{tag}{i}") for i, (c, s, e) in enumerate(keys)]
+        return make_ga("CopyNumArray", rows, {"sample_id": tag}, index="any", exact=True, labels=labels)
+    cases = [("identical order", bins, bins, None),
+             ("reference reversed", bins, bins[::-1], None),
+             ("reference is a superset, rotated", bins[1:4], bins[3:] + bins[:3], None),
+             ("same start, different end", [bins[1], bins[2]], [bins[2], bins[1]], None),
+             ("single bin", [bins[4]], bins, None),
+             ("duplicate in the sample", bins[:2] + [bins[1]], bins, "ValueError"),
+             ("duplicate in the reference", bins[:2], bins[:2] + [bins[0]], "ValueError"),
+             ("bin missing from the reference", bins[:3], bins[:2] + bins[3:], "ValueError"),
+             ("same start and chromosome, other end only", [bins[1]], [bins[2]], "ValueError")]
+    for label, skeys, rkeys, want_exc in cases:
+        W.reset()
+        slabels = [40 + 3 * i for i in range(len(skeys))][::-1]
+        rlabels = [7 * i + 1 for i in range(len(rkeys))]
+        samp, ref = table(skeys, "s", slabels), table(rkeys, "r", rlabels)
+        it = Interp(prog)
+        try:
+            out = it.run(fi.qn, [ref, samp])
+            raised = None
+        except Raised as r:
+            out, raised = None, str(r)
+        except Undecided as u:
+            tb.undecided.append(f"{label}: {u}")
+            continue
+        if want_exc:
+            tb.cell(raised is not None and want_exc in raised, dict(case=label, raised=raised, want=want_exc))
+            continue
+        ok = raised is None and isinstance(out, GA) and out.data.n == len(skeys)
+        got = None
+        if ok:
+            got = list(out.data.cols["rowid"].v)
+            want = [f"r{rkeys.index(k)}" for k in skeys]
+            ok = got == want and out.data.labels == slabels and [tuple(out.data.cols[c].v[i] for c in ("chromosome", "start", "end")) for i in range(len(skeys))] == list(skeys)
+            ok = ok and list(samp.data.cols["rowid"].v) == [f"s{i}" for i in range(len(skeys))] and list(ref.data.cols["rowid"].v) == [f"r{i}" for i in range(len(rkeys))]
+        tb.cell(ok, dict(case=label, raised=raised, reference_rows=got, result_labels=getattr(out.data, "labels", None) if isinstance(out, GA) else None, sample_labels=slabels))
+    tb.done("the reference is not matched to the sample bin for bin by coordinates (or bad input is not refused)")
 
 
 def _loop_dominates(g, r, par):
@@ -200,41 +197,46 @@ def d3(chk, prog):
 def d4(chk, prog):
     chk.clause("D4", "weights are clipped into [1e-4, 1]")
     fi = prog.fn(f"{FIX}.apply_weights")
-    rets = [r for r in own_nodes(fi.node) if isinstance(r, ast.Return)]
-    chk.floor("returns of apply_weights", len(rets), 1)
-    for r in rets:
-        v = r.value
-        ok = isinstance(v, ast.Call) and norm(v.func).endswith(".add_columns") and any(k.arg == "weight" and isinstance(k.value, ast.Call) and isinstance(k.value.func, ast.Attribute)
-                                                                                          and k.value.func.attr == "clip" and [norm(a) for a in k.value.args] == ["epsilon", "1.0"] for k in v.keywords)
-        chk.decide(ok, "weight-bounds", "weight = (...).clip(epsilon, 1.0)", f"{fi.qn}::return weight", fi.loc(r), f"the weight column must be stored through .clip(epsilon, 1.0); found `{norm(v)[:90]}`")
     eps = dict(zip([a.arg for a in fi.node.args.args][-len(fi.node.args.defaults):], fi.node.args.defaults)).get("epsilon")
     ok = eps is not None and Fr(str(ast.literal_eval(eps))) == Fr(1, 10000)
     chk.decide(ok, "weight-bounds", "epsilon default = 1e-4", f"{fi.qn}::epsilon", fi.loc(), f"lower weight bound is {norm(eps) if eps is not None else None}, stated 0.0001")
+    # interval analysis of the stored weight column, every branch combination (pooled / flat reference, antitargets present / mostly empty)
+    tb = Table(chk, "weight-bounds", "apply_weights: interval of every stored weight is inside [1e-4, 1] (targets and antitargets, pooled and flat reference)", fi.loc(), fi.qn)
+    for with_anti, pooled in itertools.product([True, False], [True, False]):
+        W.reset()
+        genes = ["G", "H"] + (["Antitarget", "Antitarget"] if with_anti else [])
+        rows = [dict(chromosome="chr1", start=Term.sym(f"s{i}", 0, INF, True), end=Term.sym(f"e{i}", 1, INF, True), gene=g, log2=Term.sym(f"v{i}"), depth=Term.sym(f"d{i}", 0, INF)) for i, g in enumerate(genes)]
+        cn = make_ga("CopyNumArray", rows, {"sample_id": "S"}, index="any")
+        ref = make_ga("CopyNumArray", [dict(chromosome="chr1", start=r["start"], end=r["end"], gene=r["gene"], log2=Term.sym(f"R{i}"), spread=Term.sym(f"sp{i}", 0, INF)) for i, r in enumerate(rows)], {}, index="any")
+        model = Model()
+        model.prims["cnvlib.descriptives.biweight_midvariance"] = lambda it, *a, **k: Term.sym(f"bmv{len(W.sym_range)}", 0, INF)
+        model.method_prims["drop_low_coverage"] = lambda it, g, *a, **k: g
+        model.method_prims["residuals"] = lambda it, g, *a, **k: Vec([Term.sym(f"res{i}") for i in range(g.data.n)])
+        it = Interp(prog, model)
+        old = CTX.atoms
+        CTX.atoms = lambda d, op, pooled=pooled: pooled
+        try:
+            out = tb.guard(lambda: it.run(fi.qn, [cn, ref, "log2", "spread"]), f"antitargets={with_anti} pooled={pooled}")
+        finally:
+            CTX.atoms = old
+        if out is None:
+            continue
+        w = out.data.cols.get("weight")
+        if w is None:
+            tb.cell(False, dict(antitargets=with_anti, pooled=pooled, weight_column=None))
+            continue
+        for i, x in enumerate(w.v):
+            t = T(x)
+            tb.cell(t.lo >= 1e-4 - 1e-18 and t.hi <= 1, dict(antitargets=with_anti, pooled=pooled, bin=genes[i], weight=repr(t)[:120], interval=[t.lo, t.hi]))
+    tb.done("a stored bin weight can leave [1e-4, 1] (0 or negative weights break the segmenters; > 1 is not a weight)")
     fd = prog.fn(f"{FIX}.do_fix")
     calls = [n for n in own_nodes(fd.node) if isinstance(n, ast.Call) and norm(n.func) == "apply_weights"]
-    ok = len(calls) == 1 and len(calls[0].args) == 4 and not calls[0].keywords
+    ok = len(calls) == 1 and len(calls[0].args) <= 4 and not any(k.arg == "epsilon" for k in calls[0].keywords)
     chk.decide(ok, "weight-bounds", "do_fix does not override epsilon", f"{fd.qn}::apply_weights call", fd.loc(), "do_fix must call apply_weights with the default epsilon")
-    reassigned = [st for st, v in flow.assignments(fi.node, "epsilon")]
-    chk.decide(not reassigned, "weight-bounds", "epsilon is not reassigned inside apply_weights", f"{fi.qn}::epsilon rebinding", fi.loc(), "epsilon is rebound before the clip")
 
 
 def d5(chk, prog):
-    chk.clause("D5", "centred last: center_all after the last store to log2, before the return")
-    fi = prog.fn(f"{FIX}.do_fix")
-    par = parents(fi.node)
-    centers = [n for n in own_nodes(fi.node) if isinstance(n, ast.Call) and norm(n.func) == "cnarr.center_all"]
-    stores = [n for n in own_nodes(fi.node) if isinstance(n, (ast.Assign, ast.AugAssign)) and any("log2" in norm(t) and isinstance(t, ast.Subscript) for t in (n.targets if isinstance(n, ast.Assign) else [n.target]))]
-    rebinding = [n for n in own_nodes(fi.node) if isinstance(n, ast.Assign) and norm(n.targets[0]) == "cnarr" and not isinstance(n.targets[0], ast.Tuple)]
-    rets = [n for n in own_nodes(fi.node) if isinstance(n, ast.Return)]
-    chk.floor("log2 stores in do_fix", len(stores), 1)
-    ok = len(centers) == 1 and len(rets) == 1
-    if ok:
-        cst = stmt_of(centers[0], par)
-        ok = all(dominates(s, cst, par) and s is not cst for s in stores + rebinding) and dominates(cst, rets[0], par) and norm(rets[0].value) == "cnarr"
-        kws = {k.arg: norm(k.value) for k in centers[0].keywords}
-        ok = ok and kws.get("skip_low") == "True" and kws.get("diploid_parx_genome") == "diploid_parx_genome"
-    chk.decide(ok, "centred-last", "do_fix: ... log2 -= reference; apply_weights; center_all(skip_low=True); return", f"{fi.qn}::center_all last", fi.loc(),
-               "the output must be centred after the last change to log2 (and to the array binding) and returned as is")
+    chk.clause("D5", "centred last: decided inside D3 (the interpreted do_fix records apply_weights then center_all(skip_low=True, PAR genome), and the returned log2 is the subtraction result with nothing stored afterwards)")
 
 
 def d6(chk, prog):
@@ -453,6 +455,17 @@ def run(chk):
 _F = "cnvlib/fix.py"
 MUTANTS = [
     dict(name="missing-bin raise turned into a warning", file=_F, old="        raise ValueError(\n            f\"Reference is missing {num_missing} bins found in {samp_cnarr.sample_id}\"\n        )", new="        logging.warning(\n            f\"Reference is missing {num_missing} bins found in {samp_cnarr.sample_id}\"\n        )"),
+    dict(name="reference keyed by (chromosome, start) only", file=_F, old="    ref_labeled = ref_cnarr.data.set_index(pd.Index(ref_cnarr.coords()))", new="    ref_labeled = ref_cnarr.data.set_index(pd.Index([r[:2] for r in ref_cnarr.coords()]))"),
+    dict(name="matched reference keeps its own labels", file=_F, old="        ref_matched.reset_index(drop=True).set_index(samp_cnarr.data.index)\n", new="        ref_matched.reset_index(drop=True)\n"),
+    # (pandas' reindex itself refuses a duplicated reference key with a ValueError, so dropping the explicit check of the reference only changes the message)
+    dict(name="twin: duplicates checked in the sample only", expect="silent", file=_F, old='    for dset, name in ((samp_labeled, "sample"), (ref_labeled, "reference")):', new='    for dset, name in ((samp_labeled, "sample"),):'),
+    dict(name="twin: match_ref_to_sample refactored (keys bound first, isna, no temporary)", expect="silent", file=_F, old="""    ref_matched = ref_labeled.reindex(index=samp_labeled.index)
+    # Check for signs that the wrong reference was used
+    num_missing = pd.isnull(ref_matched.start).sum()
+    if num_missing > 0:""", new="""    sample_keys = samp_labeled.index
+    ref_matched = ref_labeled.reindex(index=sample_keys)
+    num_missing = pd.isnull(ref_matched["start"]).sum()
+    if num_missing:"""),
     dict(name="duplicates raise removed", file=_F, old="        if dupes.any():\n            raise ValueError(", new="        if False:\n            raise ValueError("),
     dict(name="reference matched by position", file=_F, old="    ref_matched = ref_labeled.reindex(index=samp_labeled.index)", new="    ref_matched = ref_labeled.iloc[: len(samp_labeled)]"),
     dict(name="mask: log2 <= lower bound", file=_F, old='        (cnarr["log2"] < params.MIN_REF_COVERAGE)', new='        (cnarr["log2"] <= params.MIN_REF_COVERAGE)'),
@@ -462,6 +475,9 @@ MUTANTS = [
     dict(name="GC_MIN_FRACTION changed", file="cnvlib/params.py", old="GC_MIN_FRACTION = 0.3", new="GC_MIN_FRACTION = 0.25"),
     dict(name="subtraction turned into addition", file=_F, old='    cnarr.data["log2"] -= ref_matched[log2_key]', new='    cnarr.data["log2"] += ref_matched[log2_key]'),
     dict(name="weights not clipped", file=_F, old="    return cnarr.add_columns(weight=weights.clip(epsilon, 1.0))", new="    return cnarr.add_columns(weight=weights)"),
+    dict(name="twin: weights clipped on their own line", expect="silent", file=_F, old="    return cnarr.add_columns(weight=weights.clip(epsilon, 1.0))", new="    weights = np.clip(weights, epsilon, 1.0)\n    return cnarr.add_columns(weight=weights)"),
+    dict(name="weights clipped from below only", file=_F, old="    return cnarr.add_columns(weight=weights.clip(epsilon, 1.0))", new="    return cnarr.add_columns(weight=weights.clip(lower=epsilon))"),
+    dict(name="flat-reference weights returned unclipped", file=_F, old="        weights = simple_wt\n\n    return cnarr.add_columns(weight=weights.clip(epsilon, 1.0))", new="        return cnarr.add_columns(weight=simple_wt)\n\n    return cnarr.add_columns(weight=weights.clip(epsilon, 1.0))"),
     dict(name="epsilon default 0", file=_F, old="def apply_weights(cnarr, ref_matched, log2_key, spread_key, epsilon=1e-4):", new="def apply_weights(cnarr, ref_matched, log2_key, spread_key, epsilon=0.0):"),
     dict(name="centre before subtracting", file=_F, old='    cnarr.data["log2"] -= ref_matched[log2_key]\n    cnarr = apply_weights(cnarr, ref_matched, log2_key, spread_key)\n    cnarr.center_all(skip_low=True, diploid_parx_genome=diploid_parx_genome)\n', new='    cnarr.center_all(skip_low=True, diploid_parx_genome=diploid_parx_genome)\n    cnarr.data["log2"] -= ref_matched[log2_key]\n    cnarr = apply_weights(cnarr, ref_matched, log2_key, spread_key)\n'),
     dict(name="seed deleted", file=_F, old="    np.random.seed(0xA5EED)\n    shuffle_order", new="    shuffle_order"),
